@@ -710,6 +710,104 @@ theorem date_cell_token_whole (T : Tables) (hT : TablesOk T) (spec : Spec) (sps 
       rw [h] at hc''; cases hc''
       exact hc' (by simpa [startsWithSpaces] using he.1.1)
 
+/-! ### non-vacuity and observations for the date theorems (kernel-evaluated on the model) -/
+
+def dateOf (r : Except StrpErr DateTime) : Option DateTime :=
+  match r with
+  | .ok t => some t
+  | .error _ => none
+def dateErr (r : Except StrpErr DateTime) : Option StrpErr :=
+  match r with
+  | .ok _ => none
+  | .error e => some e
+
+/-- the hypothesis on the character tables is satisfiable -/
+example : TablesOk asciiTables := asciiTables_ok
+
+/-- `FmtOk` holds for the formats people write for bank exports - with or without separators, with names, literal text and
+times - and fails without a year, with a repeated directive, a stray `%`, an unknown or unsupported directive -/
+example :
+    (["%m/%d/%Y", "%d.%m.%Y", "%Y-%m-%d", "%d %b %y", "%b %d, %Y", "%m/%d/%y", "%Y%m%d", "%d-%b-%Y", "%Y-%m-%dT%H:%M:%S",
+      "Posted %d %B %Y (%H:%M)", "%d%%%m%%%Y"].all fun f => FmtOk f.toList) = true ∧
+    (["%m/%d", "%d/%d/%Y", "%m/%d/%Y%", "%e/%m/%Y", "%m/%d/%Y %z", "%j %Y"].all fun f => !FmtOk f.toList) = true := by
+  decide +kernel
+
+/-- leap day, two-digit year, month name: hypotheses of `strptime_strftime` hold, the text is `29 Feb 24`, and it reads back -/
+example :
+    let t : DateTime := { year := 2024, month := 2, day := 29 }
+    let fmt := "%d %b %y".toList
+    FmtOk fmt = true ∧ t.valid = true ∧ YearFits fmt t = true ∧ strftime fmt t = "29 Feb 24".toList ∧
+      dateOf (strptime asciiTables fmt (strftime fmt t)) = some t := by
+  decide +kernel
+
+/-- another spelling: `1/5/2024 9:07` under `%m/%d/%Y %H:%M` (one-digit month, day, hour; the minute keeps its zero),
+`5  JAN\t2024` under `%d %b %Y` - `SpellsOk` holds and both read back; the spelling `1/5/2024` is NOT accepted for
+`%m%d%Y` (a digit follows the one-digit month) -/
+example :
+    let t : DateTime := { year := 2024, month := 1, day := 5, hour := 9, minute := 7 }
+    let f1 := "%m/%d/%Y %H:%M".toList
+    let s1 : List Spell := [{ unpad := true }, {}, { unpad := true }, {}, {}, {}, { unpad := true }, {}, {}]
+    let f2 := "%d %b %Y".toList
+    let s2 : List Spell := [{ unpad := true }, { blanks := some [' ', ' '] }, { name := some "JAN".toList }, { blanks := some ['\t'] }]
+    SpellsOk asciiTables s1 f1 t = true ∧ strftimeWith s1 f1 t = "1/5/2024 9:07".toList ∧
+      dateOf (strptime asciiTables f1 (strftimeWith s1 f1 t)) = some t ∧
+    SpellsOk asciiTables s2 f2 t = true ∧ strftimeWith s2 f2 t = "5  JAN\t2024".toList ∧
+      dateOf (strptime asciiTables f2 (strftimeWith s2 f2 t)) = some { year := 2024, month := 1, day := 5 } ∧
+    SpellsOk asciiTables [{ unpad := true }, { unpad := true }] "%m%d%Y".toList t = false := by
+  decide +kernel
+
+/-- **where ambiguity bites** (observation, not a defect): under `%m%d%Y` - `FmtOk`, but written with one-digit fields,
+which `SpellsOk` refuses - 11 January 2024 and 1 November 2024 are both written `1112024`; `strptime` (CPython and the
+model) reads 1 November: the first alternative of `%m` that matches is `1[0-2]`, and the rest can then still be matched.
+Written by `strftime` (`01112024` / `11012024`) the two dates differ and both read back. -/
+example :
+    let fmt := "%m%d%Y".toList
+    let one : List Spell := [{ unpad := true }, { unpad := true }]
+    let jan11 : DateTime := { year := 2024, month := 1, day := 11 }
+    let nov1 : DateTime := { year := 2024, month := 11, day := 1 }
+    FmtOk fmt = true ∧ SpellsOk asciiTables one fmt jan11 = false ∧
+    strftimeWith one fmt jan11 = "1112024".toList ∧ strftimeWith one fmt nov1 = "1112024".toList ∧
+    dateOf (strptime asciiTables fmt "1112024".toList) = some nov1 ∧
+    dateOf (strptime asciiTables fmt (strftime fmt jan11)) = some jan11 ∧
+    dateOf (strptime asciiTables fmt (strftime fmt nov1)) = some nov1 := by
+  decide +kernel
+
+/-- `rejection`, concretely, under `%m/%d/%Y`: wrong separator, month 13, day 32, 30 February, 29 February of a common year,
+trailing text, nothing; and 29 February without a year (`%m/%d`: the year defaults to 1900), a repeated directive
+(`re.error`, not a `ValueError`), a stray `%` -/
+example :
+    let f := "%m/%d/%Y".toList
+    let r (s : String) := dateErr (strptime asciiTables f s.toList)
+    r "01-15-2025" = some .noMatch ∧ r "13/01/2024" = some .noMatch ∧ r "01/32/2024" = some .noMatch ∧
+    r "02/30/2024" = some .outOfRange ∧ r "02/29/2023" = some .outOfRange ∧ r "01/15/2025x" = some (.unconverted ['x']) ∧
+    r "" = some .noMatch ∧ r "02/29/2024" = none ∧
+    dateErr (strptime asciiTables "%m/%d".toList "02/29".toList) = some .outOfRange ∧
+    dateErr (strptime asciiTables "%d/%d/%Y".toList "01/01/2024".toList) = some .reError ∧
+    dateErr (strptime asciiTables "%m/%d/%Y%".toList "01/01/2024".toList) = some .stray := by
+  decide +kernel
+
+/-- `float()` on the spelling used below -/
+def datePf : Str → Option F64 := fun s => if s = ['1', '2', '.', '5'] then some ⟨false, 0x4029000000000000⟩ else none
+
+/-- a table read with NO date oracle (`Strptime.oracles asciiTables`): `01/15/2025  Wed` (weekday cut off), `02/30/2025` (skipped
+alone), ` 1/5/2025 ` (blanks stripped, one-digit fields) - two transactions, carrying 15 and 5 January 2025; the hypotheses
+`ReachesDate` / `NoFatal` hold; and the same table under the format `%d/%d/%Y` aborts with `re.error` -/
+example :
+    let cfg : Cfg := { spec := d5Spec, eu := false, sourceName := ['B'] }
+    let o := oracles asciiTables datePf
+    let row (d : String) : List Str := [d.toList, "TEA".toList, "12.5".toList]
+    let rows := [row "01/15/2025  Wed", row "02/30/2025", row " 1/5/2025 "]
+    (∀ r ∈ rows, rowFatal o cfg r = false) ∧
+    (match parseFile o cfg rows with
+      | .ok ts => some (ts.map fun t => String.ofList t.date)
+      | .error _ => none) = some ["2025-01-15T00:00:00", "2025-01-05T00:00:00"] ∧
+    errOf (parseRow o cfg (row "02/30/2025")) = some .valueError ∧
+    dateToken cfg.spec (cell (row "01/15/2025  Wed") 0) = some "01/15/2025".toList ∧
+    (match parseFile o { cfg with spec := { d5Spec with dateFormat := "%d/%d/%Y".toList } } rows with
+      | .ok _ => none
+      | .error e => some e) = some .reError := by
+  decide +kernel
+
 end Date
 
 end TallyVerif.Props.C05
